@@ -13,9 +13,10 @@ EXPLANATION = ("Tetrahedral cell lists with symbolic vertex ids (every numbering
                "outwards (a polynomial sign obligation per emitted face).")
 BOUNDS = {
     "quick": "1 tetrahedron on 4 vertices and 2 tetrahedra on 5 vertices (all labelled cell lists, all vertices used), 3 query orders, "
-             "sorting on/off; outward orientation with symbolic coordinates for one tetrahedron (both cell orientations)",
+             "sorting on/off; the 3-tet fan around an interior edge and the 4-tet split of a tetrahedron (interior vertex) under symbolic "
+             "relabelling; outward orientation with symbolic coordinates for one tetrahedron (both cell orientations)",
     "thorough": "adds orientation for 2 tetrahedra (depth), 2 tetrahedra on 6-8 vertices (sharing an edge, a vertex or nothing), 3 tetrahedra on 5-6 vertices (depth), the "
-                "5-tet fan around an interior edge and the 4-tet split of a tetrahedron (interior vertex) under symbolic relabelling",
+                "5-tet fan around an interior edge under symbolic relabelling",
 }
 OUTSIDE = "hexahedral connectivity; meshes beyond the bounds; non-conforming cell lists"
 ASSUMPTIONS = ["the mesh is geometrically valid: no degenerate cell, the two cells of an interior face on opposite sides of it",
@@ -330,6 +331,10 @@ def relabelled_fixed(name):
             ring = [2, 3, 4, 5, 6]
             cells = [(0, 1, ring[i], ring[(i + 1) % 5]) for i in range(5)]
             V = 7
+        elif name == "fan3":    # three tets around the interior edge (0,1): an interior edge whose end points are both on the border
+            ring = [2, 3, 4]
+            cells = [(0, 1, ring[i], ring[(i + 1) % 3]) for i in range(3)]
+            V = 5
         else:                   # a tetrahedron split around an interior vertex 4
             base = (0, 1, 2, 3)
             cells = [tuple(4 if j == i else base[j] for j in range(4)) for i in range(4)]
@@ -369,6 +374,8 @@ def obligations(tier):
            ]
     obs.append(Ob("fresh-1tet", fresh(1, 4), covers=COVERS, split=5, note="each volume accessor as first query, one tetrahedron (all labellings)"))
     obs.append(Ob("fresh-2tet", fresh(2, 5), covers=COVERS, note="each volume accessor as first query, two tetrahedra"))
+    for nm in ("fan3", "split4"):
+        obs.append(Ob("fixed-" + nm, relabelled_fixed(nm), covers=COVERS, split=3, note=nm + " under symbolic relabelling"))
     if not q:
         obs.append(Ob("orient-2tet", explore(2, 5, coords=True, groups=["boundary_mesh"], orders=1), covers=COVERS, split=8,
                       required=False, note="outward orientation, symbolic coordinates, two tetrahedra"))
@@ -377,6 +384,6 @@ def obligations(tier):
                           note="two tetrahedra on %d vertices" % V))
         obs.append(Ob("vol-3tet-V5", explore(3, 5, orders=1), covers=COVERS, split=10, required=False, note="three tetrahedra on 5 vertices"))
         obs.append(Ob("vol-3tet-V6", explore(3, 6, orders=1), covers=COVERS, split=10, required=False, note="three tetrahedra on 6 vertices"))
-        for nm in ("fan5", "split4"):
+        for nm in ("fan5",):
             obs.append(Ob("fixed-" + nm, relabelled_fixed(nm), covers=COVERS, split=3, note=nm + " under symbolic relabelling"))
     return obs
